@@ -157,6 +157,8 @@ REFUSALS = [
      "_K_helper = 1\n_helper = 5\n\n\nclass K:\n    @staticmethod\n    def helper(x):\n        return x + _helper\n\n\nprint(K.helper(1), _K_helper)\n", "def helper(x)"),
     ("static-move:class-body-refers-to-the-method-by-name", "object_oriented.move_staticmethod_static_scope",
      "class K:\n    @staticmethod\n    def helper(x):\n        return x\n\n    alias = helper\n\n\nprint(K.alias(1))\n", "def helper(x)"),
+    ("static-move:one-moved-method-calls-another", "object_oriented.move_staticmethod_static_scope",
+     "class Tools:\n    @staticmethod\n    def to_celsius(f):\n        return f - 32\n\n    @staticmethod\n    def to_kelvin(f):\n        return Tools.to_celsius(f) + 273\n\n\ndef report(f):\n    return Tools.to_kelvin(f)\n", "    def to_kelvin(f)"),
     ("static-move:reached-through-an-instance-attribute", "object_oriented.move_staticmethod_static_scope",
      "class K:\n    @staticmethod\n    def helper(x):\n        return x\n\n\ndef f(k):\n    return k.helper(1)\n\n\nprint(f(K()))\n", "def helper(x)"),
 ]
@@ -217,6 +219,8 @@ PRESERVE_REFUSALS = [
     ("unused-definitions:class-preserved", "fixes.delete_unused_functions_and_classes", "class Helper:\n    pass\n", ["Helper"], "class Helper"),
     ("unused-definitions:method-preserved", "fixes.delete_unused_functions_and_classes", LIBK + "\n\nprint(make())\n", ["to_celsius"], "def to_celsius(self, f)"),
     ("unused-definitions:qualified-method-preserved", "fixes.delete_unused_functions_and_classes", LIBK + "\n\nprint(make())\n", ["Converter.to_celsius"], "def to_celsius(self, f)"),
+    ("unused-definitions:method-preserved-class-unused", "fixes.delete_unused_functions_and_classes",
+     "class Parser:\n    def tokens(self):\n        return 1\n\n    def normalise(self):\n        return 2\n\n\nprint(3)\n", ["normalise"], "def normalise(self)"),
     ("convention:function-preserved", "fixes.align_variable_names_with_convention", "def helperFn():\n    return 1\n\n\nprint(helperFn())\n", ["helperFn"], "def helperFn()"),
     ("convention:class-preserved", "fixes.align_variable_names_with_convention", "class helper_class:\n    pass\n\n\nprint(helper_class())\n", ["helper_class"], "class helper_class"),
     ("convention:variable-preserved", "fixes.align_variable_names_with_convention", "someValue = 1\nprint(someValue)\n", ["someValue"], "someValue = 1"),
